@@ -66,7 +66,7 @@ func vshSemantics(s string) SDPSemantics {
 
 func vshNewPC(tb testing.TB, cfg vshCfg, peer bool) *PeerConnection {
 	tb.Helper()
-	o := vAPIOpts{setting: func(s *SettingEngine) { s.SetSDPMediaLevelFingerprints(cfg.MediaFP) }}
+	o := vAPIOpts{virtualNet: true, setting: func(s *SettingEngine) { s.SetSDPMediaLevelFingerprints(cfg.MediaFP) }}
 	switch {
 	case peer && cfg.PeerAudio:
 		o.media = func(m *MediaEngine) error {
